@@ -93,10 +93,9 @@ def check(ctx):
 
     from rules import independence
     independence.r28_functions(ctx, [('dataflows.processors.stream:stream.res_writer', {}), (rp.qualname, {}),
-                                     (rc.qualname, {'counter': 'the row count being recorded'}),
+                                     (rc.qualname, {'__kinds__': ('COUNTER',)}),
                                      ('dataflows.processors.printer:printer.func',
-                                      {'last': 'tail buffer of printed rows', 'toprint': 'rows selected for printing',
-                                       'x': 'sampling stride of the printer'})])
+                                      {'__kinds__': ('COUNTER', 'BUFFER', 'FLAG')})])
     # 2. completeness of the persisted stream: separators / finalisation
     run.rule('R15', 'COMMIT-ORDER(observer): a resource is terminated / finalised only after its row loop; the stream step writes '
                     'the package before yielding it and the separator after each resource')
